@@ -113,6 +113,21 @@ def specBatches (c : Cfg) (tr : Track) : List (Batch Ã— Bool) â†’ List Ev
     let (tr', e) := specBatch c tr b fl
     e.toList ++ specBatches c tr' bs
 
+/-! ### Task restart
+
+The statement is about the history of an ID; a restart of the task is not part of it. What a restart may do is fixed
+here in the statement's own terms: **the ID resumes from the last event its handlers received** (that is all that
+survives a restart: the topic's event state) â€” at that event's level, "last alert" at its time, having left OK
+`duration` before it. An ID without a delivered event, or whose last delivered event is its recovery, starts as
+new. Flap detection starts over and knows the resumed level only. (Without no-recoveries and flap suppression the
+last delivered event always carries the ID's current level, and resuming is invisible: levels, events and
+durations continue as if there had been no restart.) -/
+
+def specRestart (last : Option Ev) : Track :=
+  match last with
+  | some e => if e.level != 0 then { level := e.level, leftOK := some (e.time - e.dur), lastAlert := some e.time } else {}
+  | none => {}
+
 /-! ### What is forwarded downstream (the second place the events are observed)
 
 For every delivered event â€” and for nothing else â€” the alert node forwards the data that triggered it: the point
@@ -185,5 +200,11 @@ def specBatchFlags (c : Cfg) (dec : FlapDecide) (ft : FlapTrack) : List Batch â†
   | b :: bs =>
     let ft' := if b.pts.isEmpty then ft else flapAdvance c dec ft (batchLevel c (ft.recent.headD 0) b.pts)
     (c.useFlap && ft'.flapping) :: specBatchFlags c dec ft' bs
+
+/-- flap detection after a task restart (see "Task restart" above) -/
+def flapRestart (c : Cfg) (dec : FlapDecide) (last : Option Ev) : FlapTrack :=
+  match last with
+  | some e => if e.level != 0 then flapAdvance c dec {} e.level else {}
+  | none => {}
 
 end Kap.C01
